@@ -253,6 +253,38 @@ func init() {
 			fmt.Fprintf(w, "def mergeColsFields : List String := %s\n", c01strList(keys))
 			fmt.Fprintf(w, "def mergeColsMaxFromLastMin : Bool := %v\n", maxFromMin)
 		}
+		// namespaceStrictToTransitional: is the Strict->Transitional replacement applied to the whole part
+		// (which rewrites user text) or only to attribute values selected inside start tags?
+		if fd := funcDecl("", "namespaceStrictToTransitional"); fd == nil {
+			fail("func namespaceStrictToTransitional")
+		} else {
+			whole := false
+			var attrs []string
+			ast.Inspect(fd.Body, func(n ast.Node) bool {
+				switch x := n.(type) {
+				case *ast.AssignStmt:
+					if len(x.Lhs) == 1 && len(x.Rhs) == 1 && src(x.Lhs[0]) == "content" && strings.HasPrefix(src(x.Rhs[0]), "bytesReplace(content,") {
+						whole = true
+					}
+				case *ast.BinaryExpr:
+					if x.Op == token.EQL && src(x.X) == "name" {
+						if bl, ok := x.Y.(*ast.BasicLit); ok {
+							attrs = append(attrs, unq(bl.Value))
+						}
+					}
+				case *ast.CallExpr:
+					if src(x.Fun) == "strings.HasPrefix" && len(x.Args) == 2 && src(x.Args[0]) == "name" {
+						if bl, ok := x.Args[1].(*ast.BasicLit); ok {
+							attrs = append(attrs, unq(bl.Value)+"*")
+						}
+					}
+				}
+				return true
+			})
+			sort.Strings(attrs)
+			fmt.Fprintf(w, "def nsRewriteWholePart : Bool := %v\n", whole)
+			fmt.Fprintf(w, "def nsRewriteAttrs : List String := %s\n", c01strList(attrs))
+		}
 		w.WriteString("\n")
 	})
 }
